@@ -292,24 +292,19 @@ Theorem C13_g_wrong_length : forall g,
 Proof. exact sa_g_set_wrong_length. Qed.
 Print Assumptions C13_g_wrong_length.
 
-(* SetVertsForShape with another count on NiTriShapeData: the invariant survives only without colours ... *)
+(* SetVertsForShape with another count on NiTriShapeData re-creates the data; since the repair of
+   C13-setverts-recreate-stale-colors the colour array follows the new count (cut, or padded with white)
+   and the invariant is kept for EVERY well-formed shape *)
 Theorem C13_g_set_verts_recreate : forall bsphere gtan g verts,
   sa_wf_g g -> length verts <> N.to_nat (sa_g_nv g) ->
   let nv := sa_nv_of verts in
   exists g', sa_g_api_set_verts bsphere gtan g verts = Ok g' /\ sa_g_nv g' = nv
     /\ sa_g_verts g' = firstn (N.to_nat nv) verts
-    /\ sa_g_hc g' = sa_g_hc g /\ sa_g_cols g' = sa_g_cols g /\ sa_g_tris g' = sa_g_tris g /\ sa_g_nt g' = sa_g_nt g
+    /\ sa_g_hc g' = sa_g_hc g /\ sa_g_cols g' = sa_cols_after g nv /\ sa_g_tris g' = sa_g_tris g /\ sa_g_nt g' = sa_g_nt g
     /\ sa_g_get_uvs g' = None /\ sa_g_get_normals g' = None /\ sa_g_get_tangents g' = None
-    /\ (sa_g_hc g = false -> sa_wf_g g').
+    /\ sa_wf_g g'.
 Proof. exact (fun b g => sa_g_set_verts_recreate b sa_unk_btan g). Qed.
 Print Assumptions C13_g_set_verts_recreate.
-(* ... and is REFUTED with colours: 3 coloured vertices, SetVertsForShape with 2 -> 3 colours for 2 vertices *)
-Theorem C13_g_set_verts_recreate_wf_refuted :
-  exists g verts g', sa_wf_g g
-    /\ sa_g_api_set_verts sa_unk_bsphere sa_unk_gtan g verts = Ok g'
-    /\ sa_g_nv g' = 2 /\ sa_g_get_colors g' = Some [sa_c4one; sa_c4one; sa_c4one] /\ ~ sa_wf_g g'.
-Proof. exact sa_g_set_verts_recreate_wf_refuted. Qed.
-Print Assumptions C13_g_set_verts_recreate_wf_refuted.
 
 (* ---------------------------------------------------------------------------------------------- *)
 (* save + reload (storage map of the file format made explicit) *)
@@ -362,7 +357,7 @@ Theorem C13_bs_finalize_frame : forall ver s s1, sa_bs_calc_data_sizes ver s = O
 Proof. exact sa_bs_calc_data_sizes_frame. Qed.
 Print Assumptions C13_bs_finalize_frame.
 (* ... and keeps all sixteen flag bits of the descriptor (bit-level argument through SetAttributeOffset,
-   SetSize, SetFlags; the attribute-6 mask wipes bits 28..63 and SetFlags restores them) *)
+   SetSize, SetFlags) *)
 Theorem C13_bs_finalize_keeps_flags : forall ver s s1 k, sa_bs_calc_data_sizes ver s = Ok s1 -> k < 16 ->
   N.testbit (sa_b_desc s1) (44 + k) = N.testbit (sa_b_desc s) (44 + k).
 Proof. exact sa_bs_calc_data_sizes_flags. Qed.
@@ -374,11 +369,11 @@ Theorem C13_bs_finalize_keeps_has : forall ver s s1, sa_bs_calc_data_sizes ver s
   /\ sa_bs_has s1 sa_VF_EYEDATA = sa_bs_has s sa_VF_EYEDATA /\ sa_bs_has s1 sa_VF_FULLPREC = sa_bs_has s sa_VF_FULLPREC.
 Proof. exact sa_bs_calc_data_sizes_has. Qed.
 Print Assumptions C13_bs_finalize_keeps_has.
-(* with eye data the descriptor computation shifts an int by 36 bits (VertexData.hpp:86): the model faults *)
-Theorem C13_bs_finalize_eye_faults : forall ver s,
-  sa_bs_has s sa_VF_EYEDATA = true -> sa_bs_calc_data_sizes ver s = Fault.
-Proof. exact (sa_bs_calc_data_sizes_eye_faults (fun x => x)). Qed.
-Print Assumptions C13_bs_finalize_eye_faults.
+(* since the repair of C13-eyedata-desc-shift (mask built in 64 bits) the descriptor computation is
+   total: eye data included, so the reload theorems above apply to shapes with eye data as well *)
+Theorem C13_bs_finalize_total : forall ver s, exists s1, sa_bs_calc_data_sizes ver s = Ok s1.
+Proof. exact sa_bs_calc_data_sizes_total. Qed.
+Print Assumptions C13_bs_finalize_total.
 
 Theorem C13_g_reload_verts : forall bsphere ver opt g, sa_wf_g g ->
   sa_g_get_verts (sa_g_reload ver (sa_g_after_save bsphere ver opt g)) = sa_g_get_verts g
@@ -409,6 +404,12 @@ Example C13_ex_class_sse : sa_create_class sa_getSSE = sa_row_sse /\ sa_create_c
 Proof. repeat split. Qed.
 Example C13_ex_wf_new : sa_wf_bs (sa_bs_new sa_KTri) /\ sa_wf_g sa_geom_new.
 Proof. split; [reflexivity | exact sa_geom_new_wf]. Qed.
+(* the former counterexample of the length invariant: 3 coloured vertices, SetVertsForShape with 2 -> 2 colours *)
+Example C13_ex_recreate_colors :
+  exists g', sa_wf_g sa_cex_g
+    /\ sa_g_api_set_verts sa_unk_bsphere sa_unk_gtan sa_cex_g [sa_v3z; sa_v3z] = Ok g'
+    /\ sa_g_nv g' = 2 /\ sa_g_get_colors g' = Some [sa_c4one; sa_c4one] /\ sa_wf_g g'.
+Proof. exact sa_g_set_verts_recreate_colors_ex. Qed.
 (* byte normal of 0.5f (0x3F000000) is round(0.75 * 255) = 191, read back as 127/255 *)
 Example C13_ex_nbyte : sa_nbyte 1056964608 = 191 /\ (sa_ndec 191 == 127 # 255)%Q.
 Proof. split; vm_compute; reflexivity. Qed.
